@@ -2,9 +2,28 @@ module symgo
 
 go 1.23
 
-require golang.org/x/tools v0.29.0
+require (
+	github.com/expr-lang/expr v1.16.9
+	github.com/go-playground/validator/v10 v10.22.0
+	golang.org/x/tools v0.29.0
+)
 
 require (
+	github.com/gabriel-vasile/mimetype v1.4.3 // indirect
+	github.com/go-playground/locales v0.14.1 // indirect
+	github.com/go-playground/universal-translator v0.18.1 // indirect
+	github.com/leodido/go-urn v1.4.0 // indirect
+	golang.org/x/crypto v0.21.0 // indirect
 	golang.org/x/mod v0.22.0 // indirect
+	golang.org/x/net v0.34.0 // indirect
 	golang.org/x/sync v0.10.0 // indirect
+	golang.org/x/sys v0.29.0 // indirect
+	golang.org/x/text v0.16.0 // indirect
+)
+
+replace (
+	golang.org/x/crypto => golang.org/x/crypto v0.21.0
+	golang.org/x/net => golang.org/x/net v0.23.0
+	golang.org/x/sys => golang.org/x/sys v0.18.0
+	golang.org/x/text => golang.org/x/text v0.16.0
 )
